@@ -753,8 +753,12 @@ func check(prop, tier string) int {
 					}
 				}
 				final = minimise(final, s, race, 120, minDeadline)
-			} else if g.first.Violations[0].Class == "crash" && g.first.Violations[0].Key == "WATCHDOG" {
-				fmt.Fprintf(os.Stderr, "HARNESS: watchdog expiry in run %d did not reproduce\n", g.first.Index)
+			} else if g.first.Violations[0].Class == "crash" {
+				// a worker process that died (watchdog, signal, out of memory)
+				// during a run whose plan does not die again in a fresh
+				// process is trouble of the harness or the machine, never a
+				// verdict about the property
+				fmt.Fprintf(os.Stderr, "HARNESS: worker death (%s) in run %d did not reproduce\n", g.first.Violations[0].Key, g.first.Index)
 				harness++
 				nviol -= g.count
 				continue
